@@ -458,3 +458,10 @@ func verifC09SecondPrune(ctx context.Context, state gatebe.State, popts PruneOpt
 	}
 	return store.Snapshot(), nil
 }
+
+// TestVerifRace_C09 runs every scenario body free (gates answer at once, no oracle) under the race detector.
+func TestVerifRace_C09(t *testing.T) {
+	xplore.Free = 2
+	defer func() { xplore.Free = 0 }()
+	TestVerif_C09(t)
+}
